@@ -31,7 +31,6 @@ def run(ctx):
         ctx.rule("R-C15-FINAL", "finalize() and reset() report the same pending-byte count from every decoder state (what the reader "
                  "front-ends attach to an I/O error / EOF equals what the iterator front-ends report as trailing DiscardedBytes)")
         check_final_reset(ctx, A, F, an, "R-C15-FINAL")
-        check_no_swallow(ctx, F, body_of(F, RD, "read"), ("_push_byte",))
         check_no_swallow(ctx, F, body_of(F, ITER, "next"), ("_push_byte",))
         check_no_swallow(ctx, F, F.bodies["transport::decode::decode"], ("push_byte",))
     except (AnchorMissing, Unsupported, KeyError) as e:
@@ -49,50 +48,123 @@ def viol(ctx, b, key, msg):
     ctx.violation("R-C15-DRIVER", "%s|%s" % (b["def"], key), (b["span"]["file"], b["span"]["line"], b["def"]), msg)
 
 
+READER_BAD = {
+    1: "a byte is read from the source while the previous one is still unpushed, or after the decoder reported an error / a complete transmission",
+    2: "the decoder is fed without a freshly read byte (a byte is pushed twice or skipped)",
+    3: "the byte pushed into the decoder is not the byte just read from the source",
+    4: "the decoder's buffer is borrowed although its last answer was not Ok(true)",
+    5: "the decoder is reset although the source reported no error",
+}
+
+
 def check_reader(ctx, F, A):
+    """DecoderReader::read as a protocol monitor over ghost state kept in the abstract memory (so it survives loop joins and
+    does not depend on how the loop is written):
+        0 start / 1 last push said Ok(false) / 2 last push said Ok(true) / 3 byte read, not yet pushed / 4 push said Err / 5 source error
+    read_byte needs state 0|1, _push_byte needs 3 and the byte just read, borrow_buf needs 2, reset needs 5; Ok(x) is returned
+    only in state 2 with x the borrowed buffer, Err(DecodeErr(e)) only in state 4 with the decoder's e, Err(IoErr) only in 5."""
     ip = A.ip
     b = body_of(F, RD, "read")
-    ps = paths(A, F, b, opaque_components(F))
+    G = ("G", "c15-st")
+
+    def bad(st, code):
+        st.ghost["c15-bad"] = max(st.ghost.get("c15-bad", 0), code)
+
+    def gconst(st):
+        v = st.mem.get(G)
+        return st.const_of(v.lin) if isinstance(v, VInt) else None
+
+    def on_res(ip_, frame, bb, t, callee, args, outs):
+        nm = short(callee_key(callee, frame.env))
+        if nm not in ("read_byte", "_push_byte", "borrow_buf", "reset"):
+            return
+        new = []
+        for (s2, val) in outs:
+            if G not in s2.mem:
+                new.append((s2, val))
+                continue
+            if nm == "read_byte":
+                lo, hi = s2.interval(s2.mem[G].lin)
+                if not (lo is not None and lo >= 0 and hi is not None and hi <= 1):
+                    bad(s2, 1)
+                for s3, var, pay in split_enum(ip_, s2, val, "read_byte result"):
+                    s3.mem[G] = cint(3 if var == 0 else 5, 8, False)
+                    if var == 0:
+                        s3.ghost["c15-byte"] = pay[0]
+                    new.append((s3, VEnum(val.defn, Lin.const(var), {var: pay})))
+            elif nm == "_push_byte":
+                if gconst(s2) != 3:
+                    bad(s2, 2)
+                elif args[1] != s2.ghost.get("c15-byte"):
+                    bad(s2, 3)
+                for s3, var, pay in split_enum(ip_, s2, val, "push result"):
+                    if var == 1:
+                        s3.mem[G] = cint(4, 8, False)
+                        s3.ghost["c15-err"] = pay[0]
+                        new.append((s3, VEnum(val.defn, Lin.const(1), {1: pay})))
+                        continue
+                    bv = pay[0]
+                    for truth in (False, True):
+                        for s4 in (ip_.branch(s3, bv.e, truth) if isinstance(bv, VBool) else []):
+                            s4.mem[G] = cint(2 if truth else 1, 8, False)
+                            new.append((s4, VEnum(val.defn, Lin.const(0), {0: (TRUE if truth else FALSE,)})))
+            elif nm == "borrow_buf":
+                if gconst(s2) != 2:
+                    bad(s2, 4)
+                s2.ghost["c15-buf"] = val
+                new.append((s2, val))
+            else:
+                if gconst(s2) != 5:
+                    bad(s2, 5)
+                new.append((s2, val))
+        outs[:] = new
+
+    ip.on_call_result.append(on_res)
+    try:
+        st0 = ip.new_state()
+        st0.mem[G] = cint(0, 8, False)
+        ps = paths(A, F, b, opaque_components(F), st=st0)
+    finally:
+        ip.on_call_result.remove(on_res)
     kinds = set()
     for p in ps:
-        st, tr = p["st"], p["trace"]
-        ev = {short(e["key"]): e for e in tr}
-        seq = names(tr, ("read_byte", "_push_byte", "borrow_buf", "reset", "kind", "finalize", "push_byte"))
-        rv = p["ret"]
-        var, pay = enum_variant(F, st, rv)
+        st = p["st"]
+        var, pay = enum_variant(F, st, p["ret"])
         ctx.count("R-C15-DRIVER")
+        g = gconst(st)
+        code = st.ghost.get("c15-bad", 0)
         ok, why = True, ""
-        rb = ev.get("read_byte")
-        if rb is None:
-            ok, why = False, "a return path without reading from the source"
-        else:
-            rbv, rbp = enum_variant(F, st, rb["ret"])
-            if rbv == "Ok":
+        if var == "Ok" or (var == "Err" and enum_variant(F, st, pay[0])[0] == "DecodeErr"):
+            kinds.add("byte")
+        elif var == "Err" and enum_variant(F, st, pay[0])[0] == "IoErr":
+            kinds.add("source-error")
+        if code:
+            ok, why = False, READER_BAD[code]
+        elif var == "Ok":
+            kinds.add("byte")
+            if not (g == 2 and pay[0] == st.ghost.get("c15-buf")):
+                ok, why = False, "a complete transmission must be returned as the decoder's whole buffer (borrow_buf), and only after the decoder answered Ok(true)"
+        elif var == "Err":
+            ev2, ep = enum_variant(F, st, pay[0])
+            if ev2 == "DecodeErr":
                 kinds.add("byte")
-                pb = ev.get("_push_byte")
-                if pb is None or pb["args"][1] != rbp[0] or seq.count("_push_byte") != 1:
-                    ok, why = False, "the byte read from the source is not pushed into the decoder exactly once, unmodified"
-                else:
-                    pv, pp = enum_variant(F, st, pb["ret"])
-                    if pv == "Err":
-                        ev2, ep = enum_variant(F, st, pay[0]) if var == "Err" else (None, ())
-                        if not (var == "Err" and ev2 == "DecodeErr" and ep[0] == pp[0]):
-                            ok, why = False, "a decoder error is not forwarded unmodified as ReadDecodedError::DecodeErr"
-                    elif pv == "Ok":
-                        # Ok(true) -> Ok(borrow_buf()); Ok(false) never returns
-                        bb_ = ev.get("borrow_buf")
-                        if not (var == "Ok" and bb_ is not None and pay[0] == bb_["ret"] and bool_is(st, pp[0], True)):
-                            ok, why = False, "a complete transmission must be returned as the decoder's whole buffer (borrow_buf), and only for Ok(true)"
-            else:
+                if not (g == 4 and ep[0] == st.ghost.get("c15-err")):
+                    ok, why = False, "a decoder error is not forwarded unmodified as ReadDecodedError::DecodeErr"
+            elif ev2 == "IoErr":
                 kinds.add("source-error")
+                if g != 5:
+                    ok, why = False, "an I/O error is reported although the source returned a byte"
+            else:
+                ok, why = False, "unexpected error variant %s" % ev2
+        else:
+            ok, why = False, "result of unknown shape"
         ctx.oblig(ok)
         if len(ctx.samples) < 4:
-            ctx.sample({"driver": "DecoderReader::read", "path_calls": seq, "returns": var, "faithful": ok})
+            ctx.sample({"driver": "DecoderReader::read", "monitor_state_at_return": g, "returns": var, "faithful": ok})
         if not ok:
-            viol(ctx, b, why[:40], "DecoderReader::read: " + why + " (calls %r)" % seq)
+            viol(ctx, b, why[:40], "DecoderReader::read: " + why)
     if kinds != {"byte", "source-error"}:
         viol(ctx, b, "coverage", "DecoderReader::read: expected byte paths and source-error paths, saw %r" % kinds)
-    # Ok(false) continues the loop: no return path exists with push result Ok(false) (checked above), and the loop has a back edge
     if not CFG(b).loops():
         viol(ctx, b, "loop", "DecoderReader::read has no loop")
 
@@ -341,9 +413,25 @@ def check_generic(ctx, F):
         "finalize": {"transport::decode::decode", "transport::decode::DecodeIterator::<B, I>::next"},
         "reset": {"transport::decoder_reader::DecoderReader::<B, R>::read"},
     }
+    all_callers = {}
+    for b2 in F.bodies.values():
+        for bb, t in CFG(b2).calls():
+            for nm in callee_names(t):
+                if nm in F.bodies:
+                    all_callers.setdefault(nm, set()).add(b2["def"])
+
+    def covered(d, exp, seen=()):
+        """d is an expected driver, or a private helper all of whose callers are covered (it is analysed inline there)"""
+        if d in exp:
+            return True
+        b2 = F.bodies.get(d)
+        if b2 is None or d in seen or b2["vis"] == "pub" or b2.get("impl_trait"):
+            return False
+        cs = all_callers.get(d, set())
+        return bool(cs) and all(covered(c, exp, seen + (d,)) for c in cs)
     for k, exp in expected.items():
         got = callers.get(k, set())
-        extra = got - exp
+        extra = {d for d in got if not covered(d, exp)}
         if extra:
             ctx.violation("R-C15-SITES", k + "|" + ",".join(sorted(extra)), ("src/transport/decode.rs", 0, k),
                           "Decoder::%s is called from an unexpected driver %r: its loop is not covered by R-C15-DRIVER" % (k, sorted(extra)))
